@@ -50,6 +50,10 @@ type Packfile struct {
 	m            sync.Mutex
 	objectIDSize int
 
+	// resolving holds the pack offsets of the delta objects whose bases are
+	// being looked up by the current call; guarded by m like get itself.
+	resolving map[int64]struct{}
+
 	once    sync.Once
 	onceErr error
 
@@ -429,6 +433,21 @@ func (p *Packfile) getMemoryObject(oh *ObjectHeader) (plumbing.EncodedObject, er
 		err = p.scanner.inflateContent(oh.ContentOffset, w, oh.Size)
 
 	case plumbing.REFDeltaObject, plumbing.OFSDeltaObject:
+		// The idx is untrusted: it can make the base id of a REF delta
+		// resolve to the delta itself or to one of its descendants, which
+		// without this check recurses until the stack overflows.
+		if _, busy := p.resolving[oh.Offset]; busy {
+			return nil, fmt.Errorf("%w: delta cycle at offset %d", ErrMalformedPackfile, oh.Offset)
+		}
+		if len(p.resolving) >= maxDeltaChainDepth {
+			return nil, fmt.Errorf("%w: delta chain depth exceeds %d", ErrMalformedPackfile, maxDeltaChainDepth)
+		}
+		if p.resolving == nil {
+			p.resolving = make(map[int64]struct{})
+		}
+		p.resolving[oh.Offset] = struct{}{}
+		defer delete(p.resolving, oh.Offset)
+
 		var parent plumbing.EncodedObject
 
 		switch oh.Type {
